@@ -22,9 +22,13 @@ def quantity_sites(repo):
             d = dotted_name(c.func) or ''
             if d.split('.')[-1] not in ('Quantity', 'quantity') or len(c.args) != 2:
                 continue
-            v = c.args[0]
+            # through named intermediates (`v = p.value; u = convertible_unit(p.CurrentUnits); Quantity(v, u)`)
+            from gxstat.inline import enclosing_stmt, inline_sequential
+            st = enclosing_stmt(c)
+            v = inline_sequential(c.args[0], st) if isinstance(c.args[0], ast.Name) and st is not None else c.args[0]
+            u = inline_sequential(c.args[1], st) if isinstance(c.args[1], ast.Name) and st is not None else c.args[1]
             if isinstance(v, ast.Attribute) and v.attr == 'value':
-                out.append((f, c, norm(v.value), c.args[1]))
+                out.append((f, c, norm(v.value), u))
     return out
 
 
@@ -52,8 +56,10 @@ def check_value_unit_pairing(ctx, rule: str) -> int:
         for st in ast.walk(f.node):
             if not (isinstance(st, ast.Assign) and isinstance(st.targets[0], ast.Attribute) and st.targets[0].attr == 'value'):
                 continue
-            tos = [c for c in ast.walk(st.value) if isinstance(c, ast.Call) and isinstance(c.func, ast.Attribute) and c.func.attr == 'to' and c.args]
-            if not tos or not norm(st.value).endswith('.magnitude'):
+            from gxstat.inline import inline_sequential
+            val = inline_sequential(st.value, st) if any(isinstance(x, ast.Name) for x in ast.walk(st.value)) else st.value
+            tos = [c for c in ast.walk(val) if isinstance(c, ast.Call) and isinstance(c.func, ast.Attribute) and c.func.attr == 'to' and c.args]
+            if not tos or not norm(val).endswith('.magnitude'):
                 continue
             n += 1
             obj = norm(st.targets[0].value)
@@ -63,8 +69,9 @@ def check_value_unit_pairing(ctx, rule: str) -> int:
             blk = _block_of(st)
             idx = blk.index(st)
             nxt = blk[idx + 1] if idx + 1 < len(blk) else None
+            nv = (inline_sequential(nxt.value, nxt) if val is not st.value else nxt.value) if isinstance(nxt, ast.Assign) else None
             ok = isinstance(nxt, ast.Assign) and norm(nxt.targets[0]) == f'{obj}.CurrentUnits' and \
-                norm(_strip_wrappers(nxt.value)).replace('.value', '') == norm(tu).replace('.value', '')
+                norm(_strip_wrappers(nv)).replace('.value', '') == norm(tu).replace('.value', '')
             ctx.check(ok, rule, f'{f.qualname}/{obj}.value-converted/relabelled', f'{f.module.rel}:{st.lineno}',
                       f'`{norm(st)[:100]}` stores a magnitude in `{norm(tu)[:40]}` but the next statement is '
                       f'`{norm(nxt)[:70] if nxt is not None else "(end of block)"}`: CurrentUnits must be set to that same unit right away, otherwise '
